@@ -14,16 +14,16 @@ type replayer struct {
 	g   *graph
 	w   *world
 
-	statesVisited  int
-	statesUngated  int
-	edgesReplayed  int
-	edgesUngated   int
-	pathSteps      int
-	aborted        int
-	curPath        []*outRec
-	curAct         *outRec
-	executed       map[*outRec]bool // distinct edges of the graph executed on the real node
-	stopped        bool             // time budget exhausted
+	statesVisited int
+	statesUngated int
+	edgesReplayed int
+	edgesUngated  int
+	pathSteps     int
+	aborted       int
+	curPath       []*outRec
+	curAct        *outRec
+	executed      map[*outRec]bool // distinct edges of the graph executed on the real node
+	stopped       bool             // time budget exhausted
 }
 
 func (r *replayer) replayDesc() any {
@@ -369,12 +369,38 @@ func (r *replayer) execEdge(src *stateRec, o *outRec) bool {
 				map[string]any{"owner": o.A, "writes": res.Parts, "lock_table": before.M, "writer_guards": before.G[o.A]}, r.replayDesc())
 		}
 	}
+	if rq.T == "F" {
+		r.afterClose(o)
+	}
 	// ---- conformance of the result ----
 	if res.OK != o.R {
 		r.rep.Nonconf("%s: request %s of %s -> ok=%v (%s), model predicts %v", r.g.cfg, o.N, o.A, res.OK, res.Err, o.R)
 		return false
 	}
 	return true
+}
+
+// afterClose runs after a connection closed a descriptor (FUSE FLUSH: DatabaseHandle.Flush ->
+// DB.UnlockDatabase, SHMHandle.Flush -> DB.UnlockSHM). Closing one file gives up the locks of that file
+// only; SQLite closes the -shm descriptor in the middle of PRAGMA journal_mode=DELETE while it still holds
+// EXCLUSIVE on the database file. Monitor: a complete, uninterrupted TryAcquireWriteLock made right now
+// does not enter while a connection holds a conflicting lock. Conformance: LiteFS's guard sets still show
+// every lock the connections hold, and a new reader (PENDING, SHARED read locks through a spare
+// connection) is refused while a connection holds PENDING or SHARED exclusively.
+func (r *replayer) afterClose(o *outRec) {
+	w := r.w
+	r.rep.Eval(1)
+	if f := w.forgotten(); len(f) > 0 {
+		r.rep.Nonconf("%s: after %s of %s LiteFS's guard sets no longer show locks the connection still holds: %v (path %v)",
+			r.g.cfg, o.N, o.A, f, pathString(r.curPath, r.curAct))
+	}
+	for _, p := range w.procs {
+		if p.active || p.ahead || p.gs != nil {
+			return // an internal writer of the model is under way: its own edges are the attempts
+		}
+	}
+	w.entryProbe("after-"+o.N, r.replayDesc())
+	w.readerProbe("after-" + o.N)
 }
 
 func acceptedParts(parts map[string]string) string {
@@ -486,6 +512,7 @@ func (r *replayer) run(budget time.Duration) {
 			r.rep.Case(r.g.cfg+"|"+n.parent.key+"|"+n.via.A+":"+n.via.N, n.parent != r.g.init || !n.via.R)
 		}
 		if !r.compare(n, "state after path") {
+			r.aborted++ // its edges are not executed from a state the node is not in
 			continue
 		}
 		dirty := false
